@@ -110,14 +110,14 @@ def _fmt_origin(o, srcs):
     return 'generated'
 
 
-def run_verus(path, rlimit=None, extra=None, timeout=1800):
+def run_verus(path, rlimit=None, extra=None, timeout=1800, rustc=None):
     cmd = ['verus', path, '--triggers-mode', 'silent', '--output-json', '--time-expanded',
            '--multiple-errors', '5', '--num-threads', '8']
     if rlimit:
         cmd += ['--rlimit', str(rlimit)]
     if extra:
         cmd += extra
-    cmd += ['--', '--error-format=json']
+    cmd += ['--', '--error-format=json'] + list(rustc or [])
     env = dict(os.environ)
     t0 = time.time()
     try:
@@ -232,7 +232,7 @@ def run_unit(unit_dir, rlimit=100, probes=True, keep=True):
     new = [t for t in res['trusted'] if t not in allow]
     res['trusted_new'] = new
     linemap = asm.linemap()
-    js, diags, wall, cmd, err = run_verus(path, rlimit)
+    js, diags, wall, cmd, err = run_verus(path, rlimit, rustc=cfg.get('rustc_args'))
     res['cmd'] = cmd
     res['wall_s'] = wall
     if js is None:
@@ -334,7 +334,7 @@ def run_unit(unit_dir, rlimit=100, probes=True, keep=True):
         ppath = os.path.join(out_dir, unit + '_probe.rs')
         pasm, _ = extract.assemble(unit_dir, ppath, probe=True, soft=soft)
         pl = pasm.linemap()
-        pjs, pdiags, pwall, pcmd, perr = run_verus(ppath, rlimit)
+        pjs, pdiags, pwall, pcmd, perr = run_verus(ppath, rlimit, rustc=cfg.get('rustc_args'))
         res['wall_s'] += pwall
         expected = set()
         for sg in pasm.segs:
@@ -354,7 +354,7 @@ def run_unit(unit_dir, rlimit=100, probes=True, keep=True):
             lpath = os.path.join(out_dir, unit + '_probe_loops.rs')
             lasm, _ = extract.assemble(unit_dir, lpath, probe='loops', soft=soft)
             ll = lasm.linemap()
-            ljs, ldiags, lwall, lcmd, lerr = run_verus(lpath, rlimit)
+            ljs, ldiags, lwall, lcmd, lerr = run_verus(lpath, rlimit, rustc=cfg.get('rustc_args'))
             res['wall_s'] += lwall
             for d in ldiags:
                 cls, kind = classify(d)
